@@ -464,6 +464,11 @@ func marshalBody(fset *token.FileSet, stmts []ast.Stmt, c *jCmd, vars map[string
 			out = append(out, jStmt{Op: "u8", Blk: blkOf(m[1], m[2], fset, st), F: m[3], Line: line})
 			continue
 		}
+		// raw = append(raw, 0x00, 0x00): literal zero bytes (the terminator of a null-terminated string)
+		if m := regexp.MustCompile(`^raw(Parameters|Data)Content = append\(raw(Parameters|Data)Content, ((?:0x00|0)(?:, (?:0x00|0))*)\)$`).FindStringSubmatch(s); m != nil {
+			out = append(out, jStmt{Op: "zeros", Blk: blkOf(m[1], m[2], fset, st), K: len(strings.Split(m[3], ", ")), Line: line})
+			continue
+		}
 		if m := reSubM.FindStringSubmatch(s); m != nil {
 			if i+1 >= len(stmts) || src(fset, stmts[i+1]) != errCheckM {
 				fail(fset, st, "result of %s.Marshal() is not followed by the error check", m[2])
@@ -805,6 +810,22 @@ func unmarshalBody(fset *token.FileSet, stmts []ast.Stmt, c *jCmd) []jStmt {
 			add(jStmt{Op: "clear", F: m[1]})
 			continue
 		}
+		// c.F = 0 / c.F = [n]types.T{0, …, 0}: an optional field is reset before the word-count test that reads it
+		if m := regexp.MustCompile(`^c\.(\w+) = (0|0x0+)$`).FindStringSubmatch(s); m != nil {
+			if typeWidth(strings.TrimPrefix(fieldType(c, m[1]), "types.")) == 0 {
+				fail(fset, st, "Unmarshal of %s: %s is reset to 0 but is not declared as an integer", c.Name, m[1])
+			}
+			add(jStmt{Op: "zeroInt", F: m[1]})
+			continue
+		}
+		if m := regexp.MustCompile(`^c\.(\w+) = \[(\d+)\](types\.\w+)\{(0(?:, 0)*)\}$`).FindStringSubmatch(s); m != nil {
+			n, _ := strconv.Atoi(m[2])
+			if fieldType(c, m[1]) != fmt.Sprintf("[%d]%s", n, m[3]) || len(strings.Split(m[4], ", ")) != n {
+				fail(fset, st, "Unmarshal of %s: reset of %s does not match its declared type %s", c.Name, m[1], fieldType(c, m[1]))
+			}
+			add(jStmt{Op: "zeroInts", F: m[1], K: n})
+			continue
+		}
 		if m := regexp.MustCompile(`^c\.(\w+) = make\(\[\]types\.\w+, c\.(\w+)\)$`).FindStringSubmatch(s); m != nil {
 			add(jStmt{Op: "makeInts", F: m[1], G: m[2]})
 			continue
@@ -1027,6 +1048,8 @@ func leanStmt(s jStmt, marshal bool) string {
 		return fmt.Sprintf(".%s .%s %s", s.Op, s.Blk, q(s.F))
 	case "sub", "forSub":
 		return fmt.Sprintf(".%s .%s %s %s", s.Op, s.Blk, q(s.F), q(s.Typ))
+	case "zeros":
+		return fmt.Sprintf(".zeros .%s %d", s.Blk, s.K)
 	case "setFmt":
 		return fmt.Sprintf(".setFmt %s %d", q(s.F), s.K)
 	case "assignLen":
@@ -1064,6 +1087,10 @@ func leanStmt(s jStmt, marshal bool) string {
 		return fmt.Sprintf(".%s %s", s.Op, leanExpr(s.E))
 	case "clear":
 		return fmt.Sprintf(".clear %s", q(s.F))
+	case "zeroInt":
+		return fmt.Sprintf(".zeroInt %s", q(s.F))
+	case "zeroInts":
+		return fmt.Sprintf(".zeroInts %s %d", q(s.F), s.K)
 	case "makeInts":
 		return fmt.Sprintf(".makeInts %s %s", q(s.F), q(s.G))
 	case "forCountInt":
